@@ -362,11 +362,16 @@ Fixpoint acc_add (m : list (addr * Z)) (a : addr) (v : Z) : list (addr * Z) :=
 
 Definition nz1 (x : Z) : Z := if x =? 0 then 1 else x.
 
+(* [proposers] / [validators]: one (account, stake) entry PER MINER - several miners may name the same account
+   (GetValidatorsStake adds their stakes per account: membersDetail[addr] += stake, total += stake). *)
+Definition per_account (l : list (addr * Z)) : list (addr * Z) := fold_left (fun m p => acc_add m (fst p) (snd p)) l [].
+
 Definition reward_weights (castor : addr) (proposers validators : list (addr * Z)) : list (addr * Z) :=
   let S := sum_snd proposers in let V := sum_snd validators in
   let base := fold_left (fun m p => acc_add m (fst p) (7 * snd p * nz1 V)) proposers [(castor, 3 * nz1 S * nz1 V)] in
-  let kept := filter (fun p => negb (existsb (fun q => N.eqb (fst q) (fst p)) validators)) base in
-  kept ++ map (fun q => (fst q, 4 * snd q * nz1 S)) validators.
+  let vacc := per_account validators in
+  let kept := filter (fun p => negb (existsb (fun q => N.eqb (fst q) (fst p)) vacc)) base in
+  kept ++ map (fun q => (fst q, 4 * snd q * nz1 S)) vacc.
 
 Definition reward_weight_total (proposers validators : list (addr * Z)) : Z :=
   14 * nz1 (sum_snd proposers) * nz1 (sum_snd validators).
